@@ -303,6 +303,30 @@ Proof.
   - lia.
 Qed.
 
+(* shares of two nodes are proportional to their weights up to one unit each *)
+Lemma delta_fair T W ns a b :
+  0 < W -> wnn ns -> W = sumZ (map weight ns) -> NoDup (map nm ns) -> In a ns -> In b ns ->
+  Z.abs (delta_of T W ns a * weight b - delta_of T W ns b * weight a) <= weight a + weight b.
+Proof.
+  intros HW Hnn HWeq Hnd Ha Hb.
+  pose proof (delta_close T W ns a HW Hnn HWeq Hnd Ha) as HA.
+  pose proof (delta_close T W ns b HW Hnn HWeq Hnd Hb) as HB.
+  pose proof (Hnn _ Ha) as Hwa. pose proof (Hnn _ Hb) as Hwb.
+  set (da := delta_of T W ns a) in *. set (db := delta_of T W ns b) in *.
+  set (wa := weight a) in *. set (wb := weight b) in *.
+  set (X := da * W - wa * T) in *. set (Y := db * W - wb * T) in *.
+  assert (HQ : (da * wb - db * wa) * W = X * wb - Y * wa) by (unfold X, Y; ring).
+  assert (H1 : X * wb <= W * wb) by nia.
+  assert (H2 : - (W * wb) <= X * wb) by nia.
+  assert (H3 : Y * wa <= W * wa) by nia.
+  assert (H4 : - (W * wa) <= Y * wa) by nia.
+  assert (H5 : (da * wb - db * wa) * W <= (wa + wb) * W) by lia.
+  assert (H6 : - ((wa + wb) * W) <= (da * wb - db * wa) * W) by lia.
+  assert (da * wb - db * wa <= wa + wb) by nia.
+  assert (- (wa + wb) <= da * wb - db * wa) by nia.
+  lia.
+Qed.
+
 Lemma hamilton_exact T W ns :
   0 < T -> 0 < W -> wnn ns -> W = sumZ (map weight ns) -> NoDup (map nm ns) ->
   hamilton T W ns = map (delta_of T W ns) ns
